@@ -65,7 +65,7 @@ PROPS = {
     ),
     'C06': dict(
         title='Multivariate = all-pairs aggregate, order independent', level='other',
-        groups=both(['plumb.forms', 'addpwc_py.P', 'addpwc_pyx.P', 'addpwl_py.P', 'addpwl_pyx.P', 'adddisc_py.P', 'adddisc_pyx.P', 'addpwl_py.B', 'addpwl_pyx.B', 'adddisc_py.B', 'adddisc_pyx.B', 'lemmas.symmetry']),
+        groups=both(['plumb.forms', 'plumb.repeated', 'plumb.degenerate', 'addpwc_py.P', 'addpwc_pyx.P', 'addpwl_py.P', 'addpwl_pyx.P', 'adddisc_py.P', 'adddisc_pyx.P', 'addpwl_py.B', 'addpwl_pyx.B', 'adddisc_py.B', 'adddisc_pyx.B', 'lemmas.symmetry']),
         technique='wrappers executed on formal terms with symmetric kernel atoms; add kernels under contract',
         explanation='recursive pair halving, pair enumeration from indices, 1/M scaling, pooled sums and matrix filling are compared with the '
                     'all-pairs normal form for every ordered index subset (hence every permutation); profile addition is pointwise (C09 contracts)',
@@ -92,17 +92,17 @@ PROPS = {
     ),
     'C10': dict(
         title='Integral, average and evaluation are exact', level='other',
-        groups=both(['pwc_integral.B', 'pwc_avrg.B', 'pwc_call.B', 'pwc_callseq.B', 'pwc_plot.B', 'pwl_integral.B', 'pwl_avrg.B', 'pwl_call.B', 'pwl_callseq.B', 'pwl_plot.B', 'pwc_hist_eval.B', 'pwl_hist_eval.B']),
+        groups=both(['pwc_integral.B', 'pwc_avrg.B', 'pwc_call.B', 'pwc_callseq.B', 'pwc_plot.B', 'pwl_integral.B', 'pwl_avrg.B', 'pwl_call.B', 'pwl_callseq.B', 'pwl_plot.B', 'pwc_hist_eval.B', 'pwl_hist_eval.B', 'pwc_hist_query.B', 'pwl_hist_query.B']),
         technique='bounded symbolic execution of the real methods (searchsorted as assumed contract) against the Riemann-sum definition',
         explanation='integral vs sum over pieces of value * overlap, every position of a,b (symbolic); avrg against the contract of integral; '
-                    'scalar __call__ and plottable arrays; sequence path of __call__ not covered',
+                    'scalar and vectorised __call__ and plottable arrays; histories over the real classes: evaluate ; mul_scalar ; evaluate and integral/avrg ; add ; mul_scalar ; integral/avrg, each against a fresh object with the same content',
     ),
     'C11': dict(
         title='Discrete profiles add by event and integrate over open intervals', level='other',
-        groups=both(['adddisc_py.P', 'adddisc_pyx.P', 'adddisc_py.B', 'adddisc_pyx.B', 'disc_integral.B', 'disc_avrg.B', 'disc_plot.B', 'disc_smooth.B']),
+        groups=both(['adddisc_py.P', 'adddisc_pyx.P', 'adddisc_py.B', 'adddisc_pyx.B', 'disc_integral.B', 'disc_avrg.B', 'disc_plot.B', 'disc_smooth.B', 'disc_hist_query.B']),
         technique='inductive VCs for the event merge (py + pyx, cursor form); bounded symbolic execution of the kernel against the literal event-wise definition and of the methods',
         explanation='add_discrete_function proved for all inputs: cursors run from the first to the last event in steps of at most one, each advancing step emits exactly that event, values / multiplicities summed where both advance, a non-advancing operand has no event at that time, events strictly increasing; merge of events with summed values / multiplicities, open-interval selection, ratio with empty convention, k=0 plottable '
-                    'data; smoothing window k>0 with concrete integer multiplicities',
+                    'data; smoothing window k>0 with concrete integer multiplicities; history integral(a,b) ; add ; mul_scalar ; integral(a,b) against a fresh object with the same content',
     ),
     'C12': dict(
         assumptions=['SPIKE scan proof (spike_*.P): get_min_dist is replaced by its contract (result = the opaque nearest-spike distance MD(tau), of which '
@@ -136,7 +136,7 @@ PROPS = {
     ),
     'C15': dict(
         title="MRTS only de-emphasises small time scales; 'auto' = pooled ISI threshold", level='other',
-        groups=both(['lemmas.mrts', 'lemmas.window', 'get_tau_py.P', 'get_tau_pyx.P', 'dist_at_t_py.P', 'isi_py.P', 'sync_py.P', 'plumb.auto', 'isilen.B', 'thresh.B', 'mrts_isi.B', 'mrts_spike.B', 'mrts_sync.B']),
+        groups=both(['lemmas.mrts', 'lemmas.window', 'get_tau_py.P', 'get_tau_pyx.P', 'dist_at_t_py.P', 'isi_py.P', 'sync_py.P', 'plumb.auto', 'isilen.B', 'thresh.B', 'thresh_trains.B', 'mrts_isi.B', 'mrts_spike.B', 'mrts_sync.B']),
         technique='scalar lemmas over the spec functions + bounded two-run symbolic execution + wrappers on formal terms',
         explanation='MRTS=0 reduces the specs to the non-adaptive ones, ratio / D non-increasing and window non-decreasing in MRTS (L); '
                     "kernels re-run with two thresholds (bounded); 'auto' is replaced by the pooled threshold of the call's trains on every entry point; "
@@ -171,8 +171,11 @@ PROPS = {
     ),
     'C20': dict(
         title='Merging and histogramming conserve every spike', level='other',
-        groups=both(['merge.B', 'psth.B']),
-        technique='bounded symbolic execution over assumed numpy contracts (concatenate, sort, linspace, histogram)',
-        explanation='merge_spike_trains = sorted multiset union on the first interval; psth = counts on equal bins (last bin closed), summing to the number of spikes; rests on assumed library contracts; generate_poisson_spikes (random draws) not covered',
+        groups=both(['merge.B', 'psth.B', 'poisson.B']),
+        technique='bounded symbolic execution over assumed numpy contracts (concatenate, sort, linspace, histogram, cumsum, random.exponential)',
+        explanation='merge_spike_trains = sorted multiset union on the first interval; psth = counts on equal bins (last bin closed), summing to the number of spikes; '
+                    'generate_poisson_spikes for every outcome of the random draws (symbolic reals >= 0): result carries the requested edges (pair and scalar form), spikes sorted, in [T_start, T_end), '
+                    'exactly the cumulative sums below T_end; bounded in the number of draws and refill iterations; rests on assumed library contracts',
+        assumptions=['np.random.exponential(scale, n) returns n finite reals >= 0 (nothing else is assumed about the draws); termination of the refill loop of generate_poisson_spikes is not verified'],
     ),
 }
